@@ -7,7 +7,7 @@ from harness import core
 
 ID = 'C11'
 TITLE = 'Two-way references stay symmetric'
-PROPS = ['Props/C11']
+PROPS = ['Props/C11', 'Props/C11_code']
 RULE = ('(L0) get_reverse_adjustments is regenerated from reverse_references.py on every run and proved equal to the hand '
         'model (Proofs/TwoWay_gen.v); (L1) fresh documents with one two-way pair (Ref/RefList on either side, two tables '
         'or a self-referential pair, a few prior updates): one BulkUpdateRecord/BulkAddRecord on either side (valid, '
@@ -266,6 +266,9 @@ def pair_cases(ctx):
 # ---------------------------------------------------------------------------------------------
 # (L1') recalc_from_reverse_values: AddReverseColumn and Ref<->RefList switches, engine vs model
 
+GEN_TERMS = []     # generated recalc_from_reverse_values vs the running method (filled by recalc_case)
+
+
 def recalc_case(r):
   """AddReverseColumn on a filled one-way column, or a type switch of one side of a pair."""
   k4, G = K(), GE()
@@ -285,11 +288,25 @@ def recalc_case(r):
           k4.natlist(sorted(self._target_table.row_ids)))
       except k4.Unrepresentable:
         snap = 'unrepresentable'
+    gen = None
+    if snap not in (None, 'unrepresentable'):
+      gen = '(gen_recalc_adjustments %s %s %s)' % (k4.enc_col(self), k4.kind_of(rev),
+                                                  k4.natlist(list(self._target_table.row_ids)))
     try:
       out = orig(self)
+      if gen is not None:
+        try:
+          pairs = [] if out is None else list(zip(out.row_ids, out.columns[rev.col_id]))
+          GEN_TERMS.append('(res_eqb (list_eqb (fun x y => Nat.eqb (fst x) (fst y) && cell_eqb (snd x) (snd y))) %s (Ok %s))'
+                           % (gen, core.coq_list(['(%s, %s)' % (k4.natlit(a), k4.enc_cell(v)) for a, v in pairs])))
+        except k4.Unrepresentable:
+          pass
       calls.append((snap, None, self, ))
       return out
     except Exception as ex:      # pylint: disable=broad-except
+      if gen is not None and k4.enc_err(ex):
+        GEN_TERMS.append('(res_eqb (list_eqb (fun x y => Nat.eqb (fst x) (fst y) && cell_eqb (snd x) (snd y))) %s (Err %s))'
+                         % (gen, k4.enc_err(ex)))
       calls.append((snap, ex, self))
       raise
 
@@ -363,6 +380,14 @@ def recalc_cases(ctx):
                       shard=60, timeout=600)
   for i in bad[:5]:
     ctx.broken('correspondence:TwoWay.recalc_from_a differs from recalc_from_reverse_values in the engine', cases[i][1])
+  from harness import k4diff
+  terms = list(GEN_TERMS)
+  del GEN_TERMS[:]
+  for t in terms:
+    ctx.count(('genrecalc', t), nontrivial=True, kind='gen:recalc_from_reverse_values')
+  bad = ctx.run_cases('genrecalc', k4diff.IMPORTS, 'fun c : bool => c', terms, shard=100, timeout=600)
+  for i in bad[:3]:
+    ctx.broken('translation:generated recalc_from_reverse_values differs from the running method', terms[i][:600])
 
 
 def regenerate(ctx):
@@ -373,9 +398,14 @@ def regenerate(ctx):
   except py2v.Untranslatable as ex:
     raise core.TieBroken('reverse_references.get_reverse_adjustments is outside the translated subset: %s' % ex)
   core.write_if_changed(os.path.join(core.COQ, 'gen', 'RevAdj_gen.v'), text)
+  from harness import k4diff
+  k4diff.regenerate(ctx)
 
 
 def correspond(ctx):
+  from harness import k4diff
+  k4diff.relation_cases(ctx)
+  k4diff.list_to_value_cases(ctx)
   pair_cases(ctx)
   ctx.log('pair cases done')
   recalc_cases(ctx)
